@@ -66,7 +66,12 @@ def cases(draw):
             # a local refinement in the middle of the search (Solver.DoLocalRefinement is public): it rewrites the
             # reported optimum, the global search that follows must still be decided by the trials alone
             drive.insert(draw(st.integers(1, len(drive))), "refine")
-    return {"recipe": recipe, "params": params, "drive": drive}
+    case = {"recipe": recipe, "params": params, "drive": drive}
+    if drive != "solve" and "refine" not in drive and draw(st.integers(0, 3)) == 0:
+        # a transient fault: the objective raises once, at its k-th call; the caller catches it and goes on (single
+        # iterations, so that every completed trial is reported) - the decision rule holds for the completed trials
+        case["fault_at"] = draw(st.integers(2, 40))
+    return case
 
 
 def fresh_evolvent(run):
@@ -102,6 +107,25 @@ def drive_run(case):
     if case["drive"] == "solve":
         run.solve()
         return run, run.history(), ("Exception was thrown" in run.stdout())
+    if case.get("fault_at"):
+        from vlib.objectives import ObjectiveFailure
+        run.problem.fail_at = case["fault_at"]
+        for k in case["drive"]:
+            if k == "solve":
+                run.solve()              # swallows the fault, if it happens here, and returns
+                if "Exception was thrown" in run.stdout() and run.problem.calls < run.problem.fail_at:
+                    return run, run.history(), True
+                continue
+            for _ in range(k):
+                try:
+                    run.step(1)
+                except ObjectiveFailure:
+                    pass
+                except Exception as e:
+                    if "outside of interval" not in str(e):
+                        raise
+                    return run, run.history(), True
+        return run, run.history(), False
     try:
         for k in case["drive"]:
             if k == "solve":
@@ -147,7 +171,8 @@ def body(case):
     refined = case["drive"] != "solve" and "refine" in case["drive"]
     classes = ["N=%d" % n, "drive=%s" % ("solve" if case["drive"] == "solve" else
                                        ("continued-past-budget" if over else "batches")),
-               "family=%s" % case["recipe"]["obj"]["family"]] + (["refined-mid-search"] if refined else [])
+               "family=%s" % case["recipe"]["obj"]["family"]] + (["refined-mid-search"] if refined else []) + \
+        (["transient-objective-fault"] if case.get("fault_at") and run.problem.calls >= case["fault_at"] else [])
     if errored:
         if not model.next_is_degenerate():
             fail("the method stopped with an internal exception after %d trials although the decision rule "
